@@ -217,11 +217,12 @@ class FlagV(Val):
 
 
 class EnumV(Val):
-    __slots__ = ("dotted", "value_")
+    __slots__ = ("dotted", "value_", "mixin")
 
     def __init__(self, dotted: str, value=None):
         self.dotted = dotted
         self.value_ = value  # the member's value, for package-defined enums
+        self.mixin = False  # the class mixes in str / int: members compare and hash like their values
 
     @property
     def tag(self):
